@@ -55,25 +55,30 @@ func typeGoesFirst(tt map[string]schema.Type, a, b string) bool {
 	if !strings.HasPrefix(a, "#") || !strings.HasPrefix(b, "#") {
 		return a < b
 	}
-	fa, pa := placeOfUnnamedType(tt[a])
-	fb, pb := placeOfUnnamedType(tt[b])
+	fa, pa, ta := placeOfUnnamedType(tt[a])
+	fb, pb, tb := placeOfUnnamedType(tt[b])
 	if fa != fb {
 		return fa < fb
 	}
 	if pa != pb {
 		return pa < pb
 	}
+	// Files of equal name are told apart by their text.
+	if ta != tb {
+		return ta < tb
+	}
 	return a < b
 }
 
-func placeOfUnnamedType(t schema.Type) (file string, pos int) {
+func placeOfUnnamedType(t schema.Type) (file string, pos int, text string) {
 	if f := t.RootFile(); f != nil {
 		file = f.Name()
+		text = string(f.Content())
 	}
 	if s := t.Schema(); s != nil && s.RootNode() != nil {
 		pos = int(s.RootNode().BasisLexEventOfSchemaForNode().Begin())
 	}
-	return file, pos
+	return file, pos, text
 }
 
 func (c *checkSchema) checkType(name string, typ schema.Type, ss map[string]schema.Type) {
